@@ -7,7 +7,7 @@ from flosim.gen import cfg_with
 class C05(FloCheck):
     pid = "C05"
     design_ref = "§6 C05"
-    cfg = cfg_with(p_go_me_parent=0.3, nframes=(2, 7), p_child=0.7, p_under=0.3, naux=(0, 2), p_caux=0.35, p_aux=0.1, p_bid=0.25, nslaves=(0, 1))
+    cfg = cfg_with(p_susp_sibling=0.15, p_go_me_parent=0.3, nframes=(2, 7), p_child=0.7, p_under=0.3, naux=(0, 2), p_caux=0.35, p_aux=0.1, p_bid=0.25, nslaves=(0, 1))
     rule = ("generated frame forests (nesting via 'in', primary-child overrides via 'under', several children) with transitions, "
             "conditional auxiliaries and stop / abort bids; after every framer run the active frames are compared with the chain "
             "computed from the AST (ancestors, active frame, primary children to a leaf; cut at the main frame of a running "
